@@ -142,5 +142,5 @@ def parts(tier):
     return [
         Enum("grid(d,c,r,engine,sign)", grid),
         Enum("wrapped-grid(c,per-line,r,index-alone)", wrapped_grid),
-        Hyp("large-shapes", big_cases, quick=800, thorough=20000),
+        Hyp("large-shapes", big_cases, quick=3000, thorough=20000),
     ]
